@@ -4,6 +4,7 @@ import (
 	"fmt"
 	"reflect"
 	"sort"
+	"strconv"
 
 	"github.com/graphql-go/graphql/language/ast"
 	"github.com/graphql-go/graphql/language/printer"
@@ -791,6 +792,21 @@ func astFromValue(value interface{}, ttype Type) ast.Value {
 		return ast.NewIntValue(&ast.IntValue{
 			Value: fmt.Sprintf("%v", value),
 		})
+	}
+	switch valueVal.Kind() {
+	case reflect.Int, reflect.Int8, reflect.Int16, reflect.Int32, reflect.Int64,
+		reflect.Uint, reflect.Uint8, reflect.Uint16, reflect.Uint32, reflect.Uint64:
+		// integers of every size (and named integer types) are numbers too
+		digits := ""
+		if valueVal.Kind() >= reflect.Uint {
+			digits = strconv.FormatUint(valueVal.Uint(), 10)
+		} else {
+			digits = strconv.FormatInt(valueVal.Int(), 10)
+		}
+		if ttype == Float {
+			digits += ".0"
+		}
+		return ast.NewIntValue(&ast.IntValue{Value: digits})
 	}
 	if value, ok := value.(float32); ok {
 		return ast.NewFloatValue(&ast.FloatValue{
